@@ -13,7 +13,7 @@ from concurrent.futures import ThreadPoolExecutor
 
 import vlib
 
-MODULES = ["Verif.C20.Theorems"]
+MODULES = ["Verif.C20.Theorems", "Verif.C20.SiteTheorems"]
 THEOREMS = [
     "Verif.C20.report_iff_in_range",
     "Verif.C20.setter_targets",
@@ -26,6 +26,10 @@ THEOREMS = [
     "Verif.C20.tc_version_spec",
     "Verif.C20.ver_le_trans",
     "Verif.C20.ver_le_total",
+    "Verif.C20.sites_as_expected",
+    "Verif.C20.s1005_sites",
+    "Verif.C20.s1024_sites",
+    "Verif.C20.csites_spec",
 ]
 KINDS = ["minlang", "maxlang", "minstd", "maxstd"]
 TOOLCHAIN = "go1.26"
@@ -48,25 +52,69 @@ def grid(ctx):
 REAL_SRC = """package p
 
 import (
+	"bytes"
+	"encoding/binary"
 	"strings"
 	"time"
 )
 
-func F%(n)s(xs []int, t time.Time) (string, time.Duration) {
-	for _ = range xs {
-	}
-	return strings.Title("x"), t.Sub(time.Now())
+type A struct {
+	X int `a:"1"`
 }
+type B struct {
+	X int `b:"2"`
+}
+
+func S1005a(xs []int) { for _ = range xs { } } // SITE s1005.2
+func S1005b(xs []int) { for _, _ = range xs { } } // SITE s1005.3
+func S1005c(xs []int) int { var i int; for i, _ = range xs { }; return i } // SITE s1005.4
+func S1005d(ch chan int) { _ = <-ch } // SITE s1005.1
+func S1005e(ch chan int) int { var x int; x, _ = <-ch; return x } // SITE s1005.0
+func S1024a(t time.Time) time.Duration { return t.Sub(time.Now()) } // SITE s1024.0
+func S1024b(t time.Time) time.Duration { return (t.Sub)(time.Now()) } // SITE s1024.1
+func SA1019a(s string) string { return strings.Title(s) } // SITE sa1019
+func SA1003a() error { var buf bytes.Buffer; return binary.Write(&buf, binary.LittleEndian, true) } // SITE sa1003
+func SA1015a() { c := time.Tick(time.Second); <-c } // SITE sa1015
+func S1016a(a A) B { return B{X: a.X} } // SITE s1016
 """
-# (check, message fragment, bound kind, threshold source)
-REAL = [("S1005", "unnecessary assignment to the blank identifier", "minlang", "go1.4"),
-        ("S1024", "time.Until", "minstd", "go1.8"),
-        ("SA1019", "strings.Title", "minstd", "dep:strings.Title")]
+REAL_TEST_SRC = """package p
+
+import "testing"
+
+func TestMain(m *testing.M) { m.Run() } // SITE sa3000
+"""
+# site -> (check, polarity, bound kind, threshold): the problem of that site is expected iff
+# polarity == model.probe(kind, threshold) for the file's effective versions; None = always.
+# The thresholds are the documented ones (Verif/C20/Sites.lean expectedRSites/expectedCSites);
+# sa1019's comes from the real knowledge.StdlibDeprecations table.
+REAL_SITES = {
+    "s1005.0": ("S1005", None, None, None),
+    "s1005.1": ("S1005", None, None, None),
+    "s1005.2": ("S1005", True, "minlang", "go1.4"),
+    "s1005.3": ("S1005", True, "minlang", "go1.4"),
+    "s1005.4": ("S1005", True, "minlang", "go1.4"),
+    "s1024.0": ("S1024", True, "minstd", "go1.8"),
+    "s1024.1": ("S1024", True, "minstd", "go1.8"),
+    "sa1019": ("SA1019", True, "minstd", "dep:strings.Title"),
+    "sa1003": ("SA1003", False, "minstd", "go1.8"),
+    "sa1015": ("SA1015", False, "minstd", "go1.23"),
+    "s1016": ("S1016", True, "minlang", "go1.8"),
+    "sa3000": ("SA3000", False, "minstd", "go1.15"),
+}
+REAL_CHECKS = sorted(set(v[0] for v in REAL_SITES.values()))
+
+
+def site_lines(src, header_lines):
+    out = {}
+    for i, l in enumerate(src.splitlines()):
+        if "// SITE " in l:
+            out[l.split("// SITE ")[1].strip()] = i + 1 + header_lines
+    return out
 
 
 def real_checks(ctx, probe):
-    """The version-restricted checks that exist in the tree (S1005, S1024, SA1019), through
-    the real staticcheck binary, against the model."""
+    """Every version-restricted call site that exists in the tree (Verif/C20/Sites.lean), each
+    with its own trigger, through the real staticcheck binary, against the model."""
     sc = vlib.build_repo_cmd(ctx, "./cmd/staticcheck")
     rc, so, se = vlib.run([probe, "-deprecations", "strings.Title"], env=vlib.go_env())
     dep = dict(l.split() for l in so.strip().splitlines())
@@ -75,17 +123,25 @@ def real_checks(ctx, probe):
     # `-go 1.N` also applies to the dependencies, and std no longer type-checks below ~go1.23, so
     # the real checks are exercised through the module's go directive (and -go at the toolchain's
     # own version, which must override the directive).
-    mods = ["1.3", "1.4", "1.7", "1.8", "1.17", "1.18", "1.22"] if ctx.quick else \
-        ["1.3", "1.4", "1.5", "1.7", "1.8", "1.9", "1.16", "1.17", "1.18", "1.19", "1.20", "1.21", "1.22", "1.23"]
+    mods = ["1.3", "1.4", "1.7", "1.8", "1.14", "1.15", "1.17", "1.18", "1.22", "1.23"] if ctx.quick else \
+        ["1.3", "1.4", "1.5", "1.7", "1.8", "1.9", "1.14", "1.15", "1.16", "1.17", "1.18", "1.19", "1.20", "1.21", "1.22", "1.22.3",
+         "1.23", "1.24"]
     flags = [None] if ctx.quick else [None, "1.26"]
-    tags = [None, "go1.20"]
+    tags = [None, "go1.20"] if ctx.quick else [None, "go1.7", "go1.20", "go1.23"]
     jobs = []
+    lines_of = {}
     for mi, m in enumerate(mods):
         gm = ctx.path("real", "r%d" % mi, "go.mod")
         open(gm, "w").write("module example.com/r%d\n\ngo %s\n" % (mi, m))
         for ti, t in enumerate(tags):
-            with open(os.path.join(os.path.dirname(gm), "f%d.go" % ti), "w") as f:
-                f.write(("//go:build %s\n\n" % t if t else "") + REAL_SRC % {"n": ti})
+            d = os.path.join(os.path.dirname(gm), "t%d" % ti)
+            os.makedirs(d, exist_ok=True)
+            hdr = "//go:build %s\n\n" % t if t else ""
+            open(os.path.join(d, "f.go"), "w").write(hdr + REAL_SRC)
+            open(os.path.join(d, "f_test.go"), "w").write(hdr + REAL_TEST_SRC)
+            sl = site_lines(REAL_SRC, 2 if t else 0)
+            sl.update(site_lines(REAL_TEST_SRC, 2 if t else 0))
+            lines_of[ti] = sl
         for fl in flags:
             jobs.append((os.path.dirname(gm), m, fl))
     cache0 = ctx.path("realcache", "x")
@@ -93,14 +149,22 @@ def real_checks(ctx, probe):
     def one(job):
         md, m, fl = job
         e = vlib.go_env({"STATICCHECK_CACHE": os.path.dirname(cache0)})
-        cmd = [sc, "-f", "json", "-checks", "S1005,S1024,SA1019"] + (["-go", fl] if fl else []) + ["./..."]
+        cmd = [sc, "-f", "json", "-checks", ",".join(REAL_CHECKS)] + (["-go", fl] if fl else []) + ["./..."]
         rc, so, se = vlib.run(cmd, cwd=md, env=e, timeout=900)
         if rc not in (0, 1):
             raise vlib.HarnessError("staticcheck failed (%d) in %s -go %s: %s" % (rc, md, fl, se[-800:]))
-        got = []
+        got = set()
+        other = []
         for line in so.splitlines():
             j = json.loads(line)
-            got.append((os.path.basename(j["location"]["file"]), j["code"], j["message"]))
+            f = j["location"]["file"]
+            if j["code"] in REAL_CHECKS:
+                got.add((os.path.basename(os.path.dirname(f)), os.path.basename(f), j["location"]["line"], j["code"]))
+            else:
+                other.append(line)
+        if other:
+            # a compile/config problem on these sources is not a C20 matter, but the grid point is lost
+            raise vlib.HarnessError("unexpected problem in the real-check module %s: %s" % (md, other[:2]))
         return job, got
 
     first = one(jobs[0])  # warms the shared cache with the facts of std
@@ -109,24 +173,85 @@ def real_checks(ctx, probe):
     lines, meta = [], []
     for (md, m, fl), got in results:
         for ti, t in enumerate(tags):
-            for (code, frag, kind, thr) in REAL:
-                thr = dep[thr[4:]] if thr.startswith("dep:") else thr
-                impl = any(fn == "f%d.go" % ti and c == code and frag in msg for fn, c, msg in got)
-                lines.append("probe %s go%s %s %s %s %s" % ("go" + fl if fl else "-", m, t or "-", TOOLCHAIN, kind, thr))
-                meta.append({"module_go": m, "flag_go": fl, "file_tag": t, "check": code, "what": frag, "bound": kind,
-                             "threshold": thr, "reported_by_real_code": impl})
+            for site, (code, pol, kind, thr) in sorted(REAL_SITES.items()):
+                fn = "f_test.go" if site == "sa3000" else "f.go"
+                impl = ("t%d" % ti, fn, lines_of[ti][site], code) in got
+                if thr and thr.startswith("dep:"):
+                    thr = dep[thr[4:]]
+                flag = "go" + fl if fl else "-"
+                if pol is None:
+                    lines.append("cmp go1.1 go1.1")
+                else:
+                    lines.append("probe %s go%s %s %s %s %s" % (flag, m, t or "-", TOOLCHAIN, kind, thr))
+                meta.append({"module_go": m, "flag_go": fl, "file_tag": t, "check": code, "site": site, "bound": kind,
+                             "threshold": thr, "reported_iff_in_range": pol, "reported_by_real_code": impl})
     model = vlib.run_model(ctx, "C20", lines)
     diffs = []
+    hit = {}
     for mt, mo in zip(meta, model):
         if mo == "bad-op":
             raise vlib.HarnessError("model rejected a real-check line")
-        mt["in_range_per_spec"] = (mo == "1")
-        if mt["reported_by_real_code"] != mt["in_range_per_spec"]:
+        pol = mt["reported_iff_in_range"]
+        mt["expected_per_spec"] = True if pol is None else ((mo == "1") == pol)
+        hit.setdefault(mt["site"], set()).add(mt["reported_by_real_code"])
+        if mt["reported_by_real_code"] != mt["expected_per_spec"]:
             diffs.append(mt)
+    # every trigger must be live: each restricted site is seen both reported and not reported
+    dead = sorted(s for s, v in hit.items() if True not in v or (REAL_SITES[s][1] is not None and False not in v))
+    if dead and not diffs:
+        raise vlib.HarnessError("real-check triggers that never discriminate on the grid: %s" % dead)
     return diffs, len(lines), len(jobs), meta[:3]
 
 
+# --------------------------------------------------------------------------- generated site table (tie G)
+def lean_ver(v):
+    import re
+    m = re.fullmatch(r"go1\.(\d+)(?:\.(\d+))?", v or "")
+    if not m:
+        return "⟨0, some 9999⟩"   # not a literal go1.N[.P]: can never equal the expectation
+    return "⟨%s, %s⟩" % (m.group(1), "some " + m.group(2) if m.group(2) else "none")
+
+
+SETTER = {"MinimumLanguageVersion": ".minLang", "MaximumLanguageVersion": ".maxLang",
+          "MinimumStdlibVersion": ".minStd", "MaximumStdlibVersion": ".maxStd"}
+
+
+def lean_str(s):
+    return '"' + s.replace("\\", "\\\\").replace('"', '\\"') + '"'
+
+
+def generate_sites(ctx):
+    """Regenerate lean/Verif/C20/Generated.lean from the current source."""
+    binp = vlib.build_harness(ctx, "c20sites")
+    rc, so, se = vlib.run([binp, vlib.REPO], timeout=300)
+    if rc != 0:
+        raise vlib.HarnessError("c20sites failed: " + se[-2000:])
+    t = json.loads(so)
+    rs = []
+    for r in t["reports"]:
+        opts = ", ".join("(%s, %s)" % (SETTER[o[0]], lean_ver(o[1])) for o in r["opts"])
+        rs.append("  ⟨%s, %d, [%s]⟩" % (lean_str(r["file"]), r["ordinal"], opts))
+    cs = []
+    for c in t["compares"]:
+        which = {"StdlibVersion": ".std", "LanguageVersion": ".lang"}.get(c["which"])
+        op = c["op"]
+        if which is None:           # swapped operands: keep the row, make it unequal to any expectation
+            which, op = (".std" if "Stdlib" in c["which"] else ".lang"), "swapped-args " + op
+        ver = "none" if c["version"].startswith("expr:") else "some " + lean_ver(c["version"])
+        try:
+            rhs = int(c["rhs"])
+        except ValueError:
+            rhs, op = 0, op + " non-literal-rhs"
+        cs.append("  ⟨%s, %s, %s, %s, %s, %d⟩" % (lean_str(c["file"]), lean_str(c["func"]), which, ver, lean_str(op), rhs))
+    src = ("import Verif.C20.Sites\n/-! generated by checks/c20.py from harness/cmd/c20sites on the current /repo tree — do not edit -/\n"
+           "namespace Verif.C20.Gen\nopen Verif.C20\n\ndef rsites : List RSite := [\n" + ",\n".join(rs) + "]\n\n"
+           "def csites : List CSite := [\n" + ",\n".join(cs) + "]\n\nend Verif.C20.Gen\n")
+    changed = vlib.write_if_changed(os.path.join(vlib.LEAN_DIR, "Verif", "C20", "Generated.lean"), src)
+    return t, changed
+
+
 def run(ctx):
+    sites, sites_changed = generate_sites(ctx)
     lean_ok, lean_broke = vlib.std_lean_phase(ctx, MODULES, THEOREMS)
     probe = vlib.build_harness(ctx, "probe20")
     mods, flags, tags, thr = grid(ctx)
@@ -237,6 +362,9 @@ def run(ctx):
         "runs_of_real_linter": len(jobs),
         "samples": [{"input": lines[i], "impl": meta[i][6], "model": model[i]} for i in range(0, len(lines), max(1, len(lines) // 6))][:8],
         "setter_tie": [" ".join(l) for l in setter_lines],
+        "site_table": {"report_sites": len(sites["reports"]), "compare_sites": len(sites["compares"]),
+                       "generated_table_changed_this_run": sites_changed,
+                       "real_check_sites": sorted(REAL_SITES)},
     })
     ctx.assumptions += [
         "go/version.Compare and go/types' FileVersions rule (max(tag, go1.21)) are modelled, not verified; the grid run compares them with the model",
@@ -246,12 +374,14 @@ def run(ctx):
     if real_diffs:
         by = {}
         for d in real_diffs:
-            by.setdefault(d["check"] + "_" + d["what"].split(".")[-1].split()[0], []).append(d)
+            by.setdefault(d["check"] + "_" + d["site"], []).append(d)
         for k, ds in sorted(by.items()):
             ctx.violation("real_%s.json" % k, {
                 "what": "a version-restricted problem of an existing check is reported outside / dropped inside its version range",
-                "how_to_replay": "module `go <module_go>`, file (with `//go:build <file_tag>`) containing: " + REAL_SRC % {"n": 0} +
-                                 " ; staticcheck -checks S1005,S1024,SA1019 [-go <flag_go>] ./...",
+                "how_to_replay": "module `go <module_go>`, package with f.go / f_test.go (each with `//go:build <file_tag>` if a tag is given) "
+                                 "containing the sources below; staticcheck -checks " + ",".join(REAL_CHECKS) + " [-go <flag_go>] ./... ; "
+                                 "the problem of the function marked `SITE <site>` must be reported iff expected_per_spec",
+                "f.go": REAL_SRC, "f_test.go": REAL_TEST_SRC,
                 "first": ds[0], "count": len(ds), "cases": ds[:40]},
                 text="C20: %d real-check grid points disagree with the spec, e.g. %s" % (len(ds), ds[0]))
     if diffs_probe:
@@ -270,14 +400,24 @@ def run(ctx):
         ctx.violation("correspondence.json", {
             "what": "model no longer corresponds to the code (or a proof no longer checks) but no probe is mis-reported on the grid",
             "effective_version_diffs": diffs_eff[:50], "setter_diffs": setter_diffs, "lean": lean_broke,
+            "site_table_from_current_source": sites,
             "correspondence": "C20 eff/setter stream; theorems " + ", ".join(THEOREMS),
         }, nofail=True)
     return vlib.finish(ctx, "proof")
 
 META = {
     "level": "proof",
-    "technique": "Lean 4 theorem over a model of report.Report's version guards and the effective-version rules; exhaustive grid correspondence through the real runner",
-    "text": "report_iff_in_range is proved for all versions and bound combinations over the Lean model; the model is tied to the code by running a probe analyzer through the real report.Report / loader / runner on the complete grid of module go directive x file build constraint x -go flag x bound kind x threshold and comparing every grid point with the model.",
-    "note": "Trusted: Lean kernel (axioms propext/Classical.choice/Quot.sound), verifdriver (compiled model), harness/cmd/probe20, go/version.Compare and go/types FileVersions (modelled, compared on the grid, not verified).",
-    "design_ref": "DESIGN.md section 5, C20",
+    "technique": "Lean 4 theorems over a model of report.Report's version guards and the effective-version rules; exhaustive grid correspondence "
+                 "through the real runner; table of all version-restricted call sites regenerated from the source and re-proved (kernel decide) "
+                 "against the documented ranges; one live trigger per site through the real staticcheck binary",
+    "text": "report_iff_in_range is proved for all versions and bound combinations over the Lean model; the model is tied to the code by running a probe "
+            "analyzer through the real report.Report / loader / runner on the complete grid of module go directive x file build constraint x -go flag x "
+            "bound kind x threshold and comparing every grid point with the model. The version-restricted call sites of the existing checks "
+            "(report.Report options in S1005/S1024, version.Compare on code.StdlibVersion/LanguageVersion in S1016, SA1003, SA1015, SA1019, SA3000) are "
+            "listed from the current source on every run (go/parser), written to Verif/C20/Generated.lean and must equal the documented table "
+            "(sites_as_expected, kernel decide; s1005_sites, s1024_sites, csites_spec give each site's exact range); every site has its own trigger "
+            "that must be seen reported and not reported across module go versions, compared with the model.",
+    "note": "Trusted: Lean kernel (axioms propext/Classical.choice/Quot.sound), c20driver (compiled model), harness/cmd/probe20 and c20sites (go/parser listing), "
+            "the hand-written expectation table in Verif/C20/Sites.lean, go/version.Compare and go/types FileVersions (modelled, compared on the grid, not verified).",
+    "design_ref": "DESIGN.md section 5 and 9.2, C20",
 }
